@@ -23,7 +23,9 @@ class Payload:
             encoded_payload = '___eio[' + \
                               str(jsonp_index) + \
                               ']("' + \
-                              encoded_payload.replace('"', '\\"') + \
+                              encoded_payload.replace('\\', '\\\\').replace(
+                                  '"', '\\"').replace('\n', '\\n').replace(
+                                  '\r', '\\r') + \
                               '");'
         return encoded_payload
 
